@@ -121,7 +121,12 @@ func GenC07(seed uint64) *Scenario {
 		}
 		s.History = append(s.History, h)
 	}
-	if r.Chance(1, 4) {
+	if r.Chance(1, 3) {
+		// tier2 workers die between two of their writes; the retried job finds what the dead one left
+		s.Rates = map[string]int{"t2_crash": []int{80, 200, 400}[r.Intn(3)]}
+		s.MaxF = map[string]int{"t2_crash": r.Range(1, 4)}
+		s.Family = "cache_subsets_worker_crashes"
+	} else if r.Chance(1, 4) {
 		// transient object-store faults while the requests run: the engine's retry loops must absorb them
 		s.Family = "cache_subsets_io_faults"
 		s.Rates = map[string]int{}
@@ -135,7 +140,7 @@ func GenC07(seed uint64) *Scenario {
 	return s
 }
 
-var transientKinds = []string{"unavailable_at_call", "reset_mid_stream", "reset_after_completion", "silent_partition", "deadline_at_call", "deadline_mid_stream"}
+var transientKinds = []string{"unavailable_at_call", "reset_mid_stream", "reset_after_completion", "silent_partition", "deadline_at_call", "deadline_mid_stream", "t2_crash", "t2_crash"}
 
 func GenC16(seed uint64) *Scenario {
 	r := NewRng(seed, "gen", "C16")
